@@ -128,7 +128,7 @@ def h_cov(cx, descs, checks, via_gamma=False):
                 sxx = sum(specs[i].deltas[name][c] * specs[i].deltas[name][c] for c in cf)
                 syy = sum(specs[j].deltas[name][c] * specs[j].deltas[name][c] for c in cf)
                 cx.prove_eq(corr[i, j] * sqrt(sxx * syy), sxy, 'pearson[%d,%d]' % (i, j))
-                cx.prove_eq(cov[i, j] * sqrt(sxx * syy), sxy * obs[i].dvalue * obs[j].dvalue, 'cov=pearson*errors[%d,%d]' % (i, j))
+                cx.prove_eq(cov[i, j], corr[i, j] * obs[i].dvalue * obs[j].dvalue, 'cov=corr*errors[%d,%d]' % (i, j))
     if 'general' in checks:
         # the general formula: corr_ij = c0_ij / sqrt(c0_ii c0_jj), cov_ij = err_i corr_ij err_j
         c0 = [[cov0_spec(specs[i], specs[j]) for j in range(n)] for i in range(n)]
@@ -292,6 +292,14 @@ def jobs(tier, seed):
     add('cov', descs=[S5, S5, S5], checks=['perm'])
     add('cov', descs=[S6, S5b], checks=['sym', 'diag', 'pearson', 'perm'])          # partly overlapping lists
     add('cov', descs=[S6, S5i, S5], checks=['sym', 'diag', 'pearson'])              # nested + irregular
+    # strided ranges: nested with a later start, different strides, overlapping
+    R7 = {'e|r1': [2, 4, 6, 8, 10, 12, 14]}
+    R5l = {'e|r1': [6, 8, 10, 12, 14]}
+    R5s = {'e|r1': [4, 8, 12, 16, 20]}
+    R6o = {'e|r1': [8, 10, 12, 14, 16, 18]}
+    add('cov', descs=[R7, R5l], checks=['sym', 'diag', 'pearson', 'perm'])
+    add('cov', descs=[R7, R5s], checks=['sym', 'diag', 'pearson'])
+    add('cov', descs=[R6o, R5l], checks=['sym', 'diag', 'pearson'])
     add('cov', descs=[S5, F5, S5], checks=['sym', 'diag', 'zero', 'perm'])          # disjoint ensembles
     add('cov', descs=[S5, F5], checks=['zero', 'general'])
     add('cov', descs=[M2, S5], checks=['sym', 'diag', 'general'])                   # replica subsets
